@@ -29,11 +29,36 @@ def register(w):
         c.ens(f"legal({A})", label="legal-after-event")
         c.may_raise("Exception", ensures=[f"legal({A})"])
 
+    # ---- callees of the exit/entry routines -----------------------------------------------------------
+    @w.contract(BI + "_record_history", props=["C11"])
+    def _(c):
+        c.trusted = "assumed frame (writes self._history only); body under run-time contract in bounded.c11"
+        c.param("states_to_exit", ListSort(Node))
+        c.mod("self._history")
+
+    @w.contract(SI + "_cancel_state_tasks", also=["xstate_statemachine.interpreter:Interpreter._cancel_state_tasks"], props=["C08"])
+    def _(c):
+        c.trusted = "assumed frame: touches timer/task bookkeeping only (fields outside the modelled interpreter state)"
+        c.param("state", Node)
+
+    @w.contract(SI + "_execute_actions", also=["xstate_statemachine.interpreter:Interpreter._execute_actions"], props=["C07"])
+    def _(c):
+        c.trusted = ("assumed: user actions and built-ins change only context / output / error / status(via _fail,_complete) "
+                     "and the event queue (A-user: never _active_state_nodes or _history); a user action that raises is contained; "
+                     "only configuration errors (an Exception subclass) escape")
+        c.param("actions", ListSort(Ev.__class__ and __import__('specs.xsm', fromlist=['Act']).Act)).param("event", Ev)
+        c.mod("self.context", "self.status", "self.output", "self.error", "self._action_depth")
+        c.may_raise("Exception")
+
     @w.contract(BI + "_exit_states", also=[SI + "_exit_states"], props=["C01", "C03"])
     def _(c):
-        c.bounded_only = True
         c.param("states_to_exit", ListSort(Node)).param("event", Ev)
         c.defaults = {"event": "None"}
         c.mod(A, "self._history", "self.context", "self._action_depth", "self.status", "self.output", "self.error")
+        c.req("forall[int](lambda i: implies(0 <= i and i < len(states_to_exit), states_to_exit[i] != None))")
         c.ens(f"forall[Node](lambda n: (n in {A}) == (n in old({A}) and not (n in states_to_exit)))", label="removes-exactly-the-listed-states")
-        c.may_raise("Exception")
+        c.may_raise("Exception", ensures=[f"forall[Node](lambda n: implies(n in {A}, n in old({A})))"])
+        INV = f"forall[Node](lambda n: (n in {A}) == (n in old({A}) and not exists[int](lambda k: 0 <= k and k < _i and states_to_exit[k] == n)))"
+        c.loop(0, inv=[INV], body="BaseInterpreter._exit_states")
+        c.loop(0, inv=[f"set_eq({A}, old({A}))"], body="SyncInterpreter._exit_states")     # first pass only cancels timers
+        c.loop(1, inv=[INV], body="SyncInterpreter._exit_states")
